@@ -1,6 +1,7 @@
 package smt
 
 import (
+	"syscall"
 	"bufio"
 	"os"
 	"fmt"
@@ -85,6 +86,9 @@ func NewSolver(kind string, ctx *Ctx, timeoutMS int) (*Solver, error) {
 	default:
 		return nil, fmt.Errorf("unknown solver %q", kind)
 	}
+	// the solver must not outlive the checker: a killed check (timeout) would otherwise
+	// leave solver processes spinning on their last query
+	cmd.SysProcAttr = &syscall.SysProcAttr{Pdeathsig: syscall.SIGKILL}
 	inp, err := cmd.StdinPipe()
 	if err != nil {
 		return nil, err
